@@ -429,6 +429,10 @@ def gen_cases(rng, tier):
         cases.append(gen_dupframe(rng))
     for i in range({'quick': 16, 'thorough': 200, 'search': 60}[tier]):
         cases.append(gen_ctor(rng, i))
+    # the model is evaluated in shards of consecutive cases: put the cheap kinds first so that the expensive
+    # read cases are spread over the shards (stable sort, the draws above are unaffected)
+    light = ('search', 'tracking', 'describe', 'ctor', 'dupframe')
+    cases.sort(key=lambda c: c['kind'] not in light)
     return cases
 
 
